@@ -85,6 +85,8 @@ def run(chk):
         chk.notes.append("correspondence: %d cases agree of %d; %d with a coupled suffix; sequential suffix not string-identical in %d; "
                          "eta formula checked on %d nodes, LS parity on %d" % (cdoc["agree"], cdoc["cases"], cdoc["with_coupling"],
                                                                                 cdoc["seq_not_exact"], cdoc["eta_checked"], cdoc["ls_checked"]))
+        chk.notes.append("hypothesis 'eta equal at corresponding nodes': eta is a function of (parent, children, L, S) for all %d decays of the corpus; "
+                         "exceptions: %s" % (cdoc.get("decays", 0), cdoc.get("eta_not_function_of_decay") or "none"))
         if cdoc["missing"]:
             chk.broken.append({"file": "corr_C03.py", "item": "correspondence run", "coqc_output": "; ".join(cdoc["missing"])})
         corr_bad = cdoc["disagreements"]
